@@ -25,6 +25,8 @@ func checkC03(p *Prog, res *Result, tier string) {
 	res.rule("C03-R7", "the revision a range answer names is the one its data was read at: one load of the committed revision before the scan feeds header and default read revision (C06-R2), and the etcd translation hands the backend's header on (C16-R9) - asking again at the named revision gives the same answer", 8)
 	res.rule("C03-R8", "a key-value handed to a result receiver is one stored record: key, value and revision are all three of the record under the iterator, or all three loop-carried copies of the previous record", 2)
 	res.rule("C03-R9", "the scan reads to the end of its partition: engine iterators of the scanner are opened with the constant record limit 0, and the end of the data is io.EOF itself (==), not an error that wraps it", 2)
+	res.rule("C03-R10", "Count agrees with Range: the scan worker increments the count it returns exactly where it appends a key to the receiver (nothing decides between the two)", 2)
+	res.rule("C03-R11", "no record of a key's history expires on its own except the classified Event create (C17-R5): a deletion marker that the engine removes before the version it hides brings a deleted key back", 8)
 	res.rule("C03-R4", "scan attempts start from an empty receiver; partition borders stay contiguous; a failed partition fails the read (C13-R5/R6/R8)", 5)
 
 	// ---- R1 ----
@@ -302,6 +304,14 @@ func checkC03(p *Prog, res *Result, tier string) {
 
 	// ---- R9: the scan reads to the end of its partition ----
 	checkScanIteratorUnbounded(p, r, res, "C03-R9")
+	checkCountMatchesAppends(p, res, "C03-R10")
+	// a read sees a deletion for as long as it sees the version the deletion hides: deletion markers and index records
+	// are written without an engine TTL (C17-R5)
+	for _, o := range p.subResult("C17", tier).Obls {
+		if o.Rule == "C17-R5" {
+			res.add("C03-R11", o.Rule+" "+o.Construct, o.Status, o.Pos, o.Detail)
+		}
+	}
 
 	// ---- R8: a returned key-value is one stored record ----
 	checkResultRecordConsistent(p, r, res, "C03-R8")
@@ -567,5 +577,96 @@ func checkScanIteratorUnbounded(p *Prog, r *Roles, res *Result, rule string) {
 	}
 	if n == 0 {
 		res.und(rule, "scanner: engine iterators", "-", "none found")
+	}
+}
+
+// checkCountMatchesAppends (C03-R10): Count is the number of keys Range returns because both come from the same
+// worker loop - the worker counts a key exactly where it hands it to the receiver. Every increment of the count the
+// worker returns sits next to an append (same basic block: nothing decides between the two), and every append next to
+// an increment.
+func checkCountMatchesAppends(p *Prog, res *Result, rule string) {
+	appendM := p.ifaceMethod("pkg/backend/scanner", "resultReceiver", "append")
+	sp := p.ssaPkg("pkg/backend/scanner")
+	n := 0
+	for _, f := range p.AllFuncs {
+		if f.Pkg != sp || f.Blocks == nil || f.Signature.Results().Len() == 0 {
+			continue
+		}
+		if bt, ok := f.Signature.Results().At(0).Type().Underlying().(*types.Basic); !ok || bt.Kind() != types.Int {
+			continue
+		}
+		var appends []ssa.CallInstruction
+		for _, c := range callsIn(f) {
+			if c.Common().IsInvoke() && c.Common().Method == appendM {
+				appends = append(appends, c)
+			}
+		}
+		if len(appends) == 0 {
+			continue
+		}
+		// the increments that feed the returned count
+		incs := map[*ssa.BinOp]bool{}
+		seen := map[ssa.Value]bool{}
+		var walk func(v ssa.Value, d int)
+		walk = func(v ssa.Value, d int) {
+			v = resolve(v)
+			if seen[v] || d > 12 {
+				return
+			}
+			seen[v] = true
+			switch x := v.(type) {
+			case *ssa.Phi:
+				for _, e := range x.Edges {
+					walk(e, d+1)
+				}
+			case *ssa.BinOp:
+				if x.Op == token.ADD {
+					if k, ok := constInt(x.Y); ok && k == 1 {
+						incs[x] = true
+						walk(x.X, d+1)
+					}
+				}
+			}
+		}
+		for _, b := range f.Blocks {
+			if ret, ok := b.Instrs[len(b.Instrs)-1].(*ssa.Return); ok && len(ret.Results) > 0 {
+				walk(ret.Results[0], 0)
+			}
+		}
+		if len(incs) == 0 {
+			continue
+		}
+		for inc := range incs {
+			n++
+			construct := fmt.Sprintf("%s: count increment #%d is paired with an append", funcName(f), n)
+			paired := false
+			for _, a := range appends {
+				if a.Block() == inc.Block() {
+					paired = true
+				}
+			}
+			if paired {
+				res.ok(rule, construct, p.pos(inc.Pos()), "same basic block as receiver.append")
+			} else {
+				res.bad(rule, construct, p.pos(inc.Pos()), "the worker counts a key on a path on which it does not hand it to the receiver (or under a different condition): Count and Range at one revision disagree - a deleted key that is the last of the range is counted")
+			}
+		}
+		for i, a := range appends {
+			construct := fmt.Sprintf("%s: append #%d is counted", funcName(f), i+1)
+			paired := false
+			for inc := range incs {
+				if a.Block() == inc.Block() {
+					paired = true
+				}
+			}
+			if paired {
+				res.ok(rule, construct, p.pos(a.Pos()), "same basic block as the count increment")
+			} else {
+				res.bad(rule, construct, p.pos(a.Pos()), "the worker hands a key to the receiver without counting it: Count is smaller than the number of keys Range returns")
+			}
+		}
+	}
+	if n == 0 {
+		res.und(rule, "scan worker: count", "-", "no function of the scanner returns a count that it increments next to receiver.append")
 	}
 }
